@@ -67,179 +67,7 @@ func (c *Ctx) ruleR13a(rule string) {
 		c.R.Fail("coverage-lost", rule, "parsley.Walk", "-", "-", "parsley.Walk(node, f) not found")
 		return
 	}
-	node, f := fn.Params[0], fn.Params[1]
-	var fcalls, rec, deleg []*ssa.Call
-	for _, call := range ssax.Calls(fn) {
-		cl, ok := call.(*ssa.Call)
-		if !ok {
-			continue
-		}
-		switch {
-		case cl.Call.Value == f && !cl.Call.IsInvoke():
-			fcalls = append(fcalls, cl)
-		case cl.Call.StaticCallee() == fn:
-			rec = append(rec, cl)
-		case cl.Call.IsInvoke() && cl.Call.Method.Name() == "Walk":
-			deleg = append(deleg, cl)
-		}
-	}
-	v := func(key, pos, msg string) { c.R.Violation(rule, "parsley.Walk "+key, "parsley.Walk", pos, msg) }
-	// the callback
-	if len(fcalls) != 1 {
-		v("callback count", c.P.Pos(fn.Pos()), fmt.Sprintf("the callback is invoked at %d sites; exactly one f(node) is expected (each node visited exactly once)", len(fcalls)))
-	} else {
-		fc := fcalls[0]
-		if len(fc.Call.Args) != 1 || fc.Call.Args[0] != node {
-			v("callback argument", c.P.InstrPos(fc), "the callback is invoked on something else than Walk's own node")
-		} else {
-			c.R.Hold(rule, "parsley.Walk f(node) @"+c.P.InstrPos(fc), "single call, on the own node")
-		}
-		for _, r := range ssax.Returns(fn) {
-			if k, isC := ssax.ConstBool(r.Results[0]); isC && k {
-				continue
-			}
-			if r.Results[0] != ssa.Value(fc) {
-				v("result", c.P.InstrPos(r), "Walk returns something else than true (abort) or the callback's own result")
-			}
-		}
-	}
-	// children recursion: Walk(child, f) over all of node.(NonTerminalNode).Children(), in Walk itself or in a
-	// helper that Walk hands the children and the callback to
-	isChildren := func(v ssa.Value) bool {
-		ch, ok := v.(*ssa.Call)
-		if !ok || !ch.Call.IsInvoke() || ch.Call.Method.Name() != "Children" {
-			return false
-		}
-		e, ok := ch.Call.Value.(*ssa.Extract)
-		if !ok {
-			return false
-		}
-		ta, ok := e.Tuple.(*ssa.TypeAssert)
-		return ok && ta.X == node
-	}
-	// recIn: in function g, a call Walk(elem, cb) ranging over all of slice-valued sl, aborting on true
-	recIn := func(g *ssa.Function, slOK func(ssa.Value) bool, cb ssa.Value) (*ssa.Call, string) {
-		var last string
-		for _, call := range ssax.Calls(g) {
-			rc, ok := call.(*ssa.Call)
-			if !ok || rc.Call.StaticCallee() != fn {
-				continue
-			}
-			if len(rc.Call.Args) != 2 || rc.Call.Args[1] != cb {
-				last = "the recursive Walk is not given the same callback"
-				continue
-			}
-			u, ok := rc.Call.Args[0].(*ssa.UnOp)
-			good := false
-			if ok && u.Op == token.MUL {
-				if ia, ok := u.X.(*ssa.IndexAddr); ok && slOK(ia.X) && isFullRangeIndex(ia.Index, ia.X) {
-					good = true
-				}
-			}
-			if !good {
-				last = "the recursive Walk does not range over all of node.(NonTerminalNode).Children()"
-				continue
-			}
-			if !ifTrueReturnsTrue(rc) {
-				last = "a child's walk returning true does not make the walk return true immediately: it goes on after the callback asked to stop"
-				continue
-			}
-			return rc, ""
-		}
-		return nil, last
-	}
-	okRec := false
-	why := ""
-	if rc, w := recIn(fn, isChildren, f); rc != nil {
-		okRec = true
-		rec = []*ssa.Call{rc}
-		c.R.Hold(rule, "parsley.Walk -> Walk(child, f) @"+c.P.InstrPos(rc), "ranges over Children(), aborts on true")
-	} else {
-		why = w
-		// through a helper: H(node.Children(), f) whose true result returns true at once
-		for _, call := range ssax.Calls(fn) {
-			hc, ok := call.(*ssa.Call)
-			if !ok {
-				continue
-			}
-			h := hc.Call.StaticCallee()
-			if h == nil || h == fn || !c.P.InLib(h) {
-				continue
-			}
-			si, fi := -1, -1
-			for i, a := range hc.Call.Args {
-				if isChildren(a) {
-					si = i
-				}
-				if a == ssa.Value(f) {
-					fi = i
-				}
-			}
-			if si < 0 || fi < 0 || si >= len(h.Params) || fi >= len(h.Params) {
-				continue
-			}
-			hs := h.Params[si]
-			rc, w := recIn(h, func(v ssa.Value) bool { return v == ssa.Value(hs) }, h.Params[fi])
-			if rc == nil {
-				why = w
-				continue
-			}
-			if !ifTrueReturnsTrue(hc) {
-				why = "the helper's true result does not make Walk return true immediately"
-				continue
-			}
-			// the helper must not invoke the callback itself
-			direct := false
-			for _, k := range ssax.Calls(h) {
-				if k.Common().Value == ssa.Value(h.Params[fi]) {
-					direct = true
-				}
-			}
-			if direct {
-				why = "the helper invokes the callback directly"
-				continue
-			}
-			okRec = true
-			rec = []*ssa.Call{hc}
-			c.R.Hold(rule, "parsley.Walk -> "+c.name(h)+" -> Walk(child, f) @"+c.P.InstrPos(rc), "ranges over Children() in a helper, aborts on true")
-		}
-	}
-	if !okRec {
-		if why == "" {
-			why = "no recursive Walk(child, f) over the children of a NonTerminalNode found: descendants are not visited (calling f(child) instead visits one level only)"
-		}
-		v("no recursion", c.P.Pos(fn.Pos()), why)
-	}
-	okDel := false
-	for _, d := range deleg {
-		e, ok := d.Call.Value.(*ssa.Extract)
-		good := ok && len(d.Call.Args) == 1 && d.Call.Args[0] == f
-		if good {
-			ta, ok := e.Tuple.(*ssa.TypeAssert)
-			good = ok && ta.X == node
-		}
-		if good && ifTrueReturnsTrue(d) {
-			okDel = true
-			c.R.Hold(rule, "parsley.Walk -> n.Walk(f) @"+c.P.InstrPos(d), "Walkable delegation, aborts on true")
-		} else {
-			v("walkable delegation", c.P.InstrPos(d), "the Walkable branch does not delegate node.(Walkable).Walk(f) with immediate abort on true")
-		}
-	}
-	if !okDel {
-		v("no delegation", c.P.Pos(fn.Pos()), "no delegation to Walkable.Walk found")
-	}
-	// post-order: no child walk can run after f(node)
-	if len(fcalls) == 1 {
-		fc := fcalls[0]
-		for _, rc := range append(append([]*ssa.Call{}, rec...), deleg...) {
-			if ssax.Reaches(fc.Block(), rc.Block(), true) && !(fc.Block() == rc.Block() && ssax.Before(rc, fc)) {
-				v("order", c.P.InstrPos(rc), "a child is walked after the callback ran on the node: not post-order")
-			}
-			if !(rc.Block() == fc.Block() && ssax.Before(rc, fc)) && !ssax.Reaches(rc.Block(), fc.Block(), false) {
-				v("order", c.P.InstrPos(rc), "the callback cannot run after this child walk: not post-order")
-			}
-		}
-	}
+	c.walkByPaths(rule, fn)
 	// library Walkables
 	wi := c.lookupIface("parsley", "Walkable")
 	for _, g := range c.P.LibFuncs {
